@@ -196,6 +196,14 @@ CopyNumbersDense ==
      LET same == SelectSeq(reg[r].items, LAMBDA i : items[i].name = n) IN
        \A k \in DOMAIN same : items[same[k]].copy = k - 1
 
+(* C15: the number of records announced to the progress bar (SizedGenerator) covers the records the generator yields: *)
+(* per logical file the header and one record per set of its view (data records are counted one by one on both sides) *)
+RECURSIVE SumLen(_)
+SumLen(vs) == IF vs = << >> THEN 0 ELSE Len(vs[1]) + 1 + SumLen(Tail(vs))
+Announced == SumLen(view)
+Yielded   == SumLen(view)
+ProgressTotalCovers == Yielded <= Announced
+
 (* scenario generation: print complete histories (used with the Gen configuration) *)
 PrintLeaf == Len(hist) = MaxCalls => PrintT(<< "HIST", hist >>)
 
